@@ -413,11 +413,11 @@ type vfE2ECase struct {
 }
 
 var (
-	vfSrvOnce  sync.Once
-	vfSrvs     [2]*vfRefServer
-	vfSrvErr   error
-	vfClients  [2]*http.Client
-	vfTestSeq  atomic.Int64
+	vfSrvOnce sync.Once
+	vfSrvs    [2]*vfRefServer
+	vfSrvErr  error
+	vfClients [2]*http.Client
+	vfTestSeq atomic.Int64
 )
 
 func vfEnsureServers() error {
